@@ -305,6 +305,22 @@ def R4_edge_oriented(ctx):
             if dd[0] == "call" and dd[1].endswith("contains_key") and nosite(dd[2][1]) == e2d and bb in ab.dom.get(c.bb, ()):
                 cond = bb
         ctx.check(cond is None, "run_a_star_edge_oriented:destination-binding-conditional", "the destination branch is inserted only `if !tree.contains_key(dst(e2))`: when the search already labelled dst(e2), backtracking from it follows the search's own branch and the route never traverses the destination edge", c.where())
+    # origin binding must not close a cycle: the sub-search starts at dst(e1) and is free to label src(e1) (any two-way road:
+    # dst(e1) -> .. -> src(e1)); tree[dst(e1)] = (parent src(e1)) then makes the parents of src(e1) lead back to src(e1), and
+    # edge_oriented_route — which climbs until it meets src(e1) — stops at the *first* visit of src(e1) and returns a route
+    # without the origin edge.  Necessary: the insert is decided on (or preceded by a removal of) the tree's entry for src(e1).
+    for c, d in keys.get(e1d, []):
+        handled = False
+        for bb, dt, names, t in switches(ab, tm2):
+            dd = deep_strip(dt)
+            if dd[0] == "un" and dd[1] == "Not":
+                dd = dd[2]
+            if dd[0] == "call" and dd[1].endswith("contains_key") and nosite(dd[2][1]) == e1s and bb in ab.dom.get(c.bb, ()):
+                handled = True
+        for r_ in ab.calls():
+            if r_.callee and re.search(r"HashMap::<K, V, S, A>::remove", r_.callee) and nosite(deep_strip(tm2.operand(r_.args[1], r_.bb))) == e1s and ab.dominates(r_.bb, c.bb):
+                handled = True
+        ctx.check(handled, "run_a_star_edge_oriented:origin-branch-closes-a-cycle", "tree[dst(e1)] = (parent src(e1), edge e1) is inserted whatever the sub-search (rooted at dst(e1)) labelled: when src(e1) is reachable from dst(e1) the tree has the cycle src(e1) -> .. -> dst(e1) -> src(e1), and when the best path passes through src(e1) (a trip that starts with a u-turn) the backtrack stops there and the route lacks the origin edge", c.where())
 
 
 def R5_reorient(ctx, rid="C01.R5"):
